@@ -68,3 +68,20 @@ package main
 //@ func (*program).loadProgram
 //@   prop C19
 //@   requires p != nil
+
+// ---- C14: parameter values travel from the flag cells to the registered parameters
+
+//@ func (*program).checkerParamKey
+//@   prop C14
+//@   pure
+//@   requires info != nil
+//@   ensures @key-format result == "@" ++ info.Name ++ "." ++ pname
+
+//@ func (*program).assignCheckerParams
+//@   prop C14
+//@   requires p != nil
+//@   requires @infos-non-nil forall k int :: (0 <= k && k < len(p.infoList)) ==> p.infoList[k] != nil
+//@   nosafety the registry invariants (non-nil infos and params, one flag cell per parameter) are established by bindCheckerParams and not restated here
+//@   loop 2 body @int-param-takes-flag-value typeIs(old(info.Params[pname].Value), "int") ==> (typeIs(info.Params[pname].Value, "int") && unbox(info.Params[pname].Value, "int") == deref(p.checkerParams.ints["@" ++ info.Name ++ "." ++ pname]))
+//@   loop 2 body @bool-param-takes-flag-value typeIs(old(info.Params[pname].Value), "bool") ==> (typeIs(info.Params[pname].Value, "bool") && unbox(info.Params[pname].Value, "bool") == deref(p.checkerParams.bools["@" ++ info.Name ++ "." ++ pname]))
+//@   loop 2 body @string-param-takes-flag-value typeIs(old(info.Params[pname].Value), "string") ==> (typeIs(info.Params[pname].Value, "string") && unbox(info.Params[pname].Value, "string") == deref(p.checkerParams.strings["@" ++ info.Name ++ "." ++ pname]))
